@@ -479,6 +479,14 @@ func c03PkgInfoProgram(rng *core.Rand, pkg string) (src string, extra map[string
 		w.WriteString("local SameName abc\nlocal SameName de\n5\next SameName abc\nabc?\nlocal SameWrap [ x\n[x[\next SameWrap n 4\nn4\n")
 	}
 	fo.WriteString(infoLocal.String() + "\n" + infoExt.String() + "\n")
+	// a foreign function generic in two type parameters, called with the complete list of type
+	// arguments, with the first one only (the rest is inferred), and with none; applied, bound, piped
+	fo.WriteString("package_info _ =\n  let MkPairTU<T, U>: T->U->T*U\n\nlet pairFull () =\n  MkPairTU<int, string> 1 \"a\"\n\nlet pairLead () =\n  MkPairTU<int> 2 \"b\"\n\nlet pairNone () =\n  MkPairTU 3 \"c\"\n\nlet pairBound () =\n  let f = MkPairTU<int> 4\n  f \"d\"\n\nlet pairPiped () =\n  \"e\" |> MkPairTU<int> 5\n\n")
+	wrap.WriteString("func MkPairTU[T any, U any](a T, b U) frt.Tuple2[T, U] {\n\tfmt.Println(\"MkPairTU\", a, b)\n\treturn frt.NewTuple2(a, b)\n}\n\n")
+	for _, fnm := range []string{"pairFull", "pairLead", "pairNone", "pairBound", "pairPiped"} {
+		fmt.Fprintf(&body, "  let (%sA, %sB) = %s ()\n  frt.Printf1 \"%%d\\n\" %sA\n  frt.Println %sB\n", fnm, fnm, fnm, fnm, fnm)
+	}
+	w.WriteString("MkPairTU 1 a\n1\na\nMkPairTU 2 b\n2\nb\nMkPairTU 3 c\n3\nc\nMkPairTU 4 d\n4\nd\nMkPairTU 5 e\n5\ne\n")
 	// a foreign (variadic) function declared again, later, with another arity: from there on the
 	// later declaration is the one in force (small package_info blocks next to their use sites)
 	fo.WriteString("package_info _ =\n  let VarCat: string->string->string->string\n\nlet useCat3 () =\n  VarCat \"a\" \"b\" \"c\"\n\n")
